@@ -15,6 +15,22 @@ def norm_panic(msg):
 
 
 def run(ctx, props, plans, design_cfgs=(), refinement=False, report_deaths=False):
+    cov, mismatches, inconcl = collect(ctx, props, plans, design_cfgs, refinement, report_deaths)
+    rc = ctx.finish("model_checking", extra_cov=cov)
+    return conclude(rc, mismatches, inconcl, refinement)
+
+
+def conclude(rc, mismatches, inconcl, refinement=False):
+    if rc == 0 and (mismatches or inconcl) and not refinement:
+        for m in mismatches[:5]:
+            print("DIVERGENCE (spec vs code, no property predicate failed): %s %s: %s" % (m["op"], json.dumps(m["args"]), "; ".join(m["diff"] or [])))
+        for r in inconcl[:5]:
+            print("INCONCLUSIVE step: %s" % json.dumps(r))
+        raise vlib.Inconclusive("%d spec/code divergences, %d inconclusive steps" % (len(mismatches), len(inconcl)))
+    return rc
+
+
+def collect(ctx, props, plans, design_cfgs=(), refinement=False, report_deaths=False):
     """plans: list of dicts {world, sim (num traces), steps, avoid (bool), crash (bool), seeds (int)}
     design_cfgs: list of (cfg, defines, invariants-description) exhaustively checked on the first plan's world.
     Returns exit code via ctx.finish."""
@@ -104,15 +120,9 @@ def run(ctx, props, plans, design_cfgs=(), refinement=False, report_deaths=False
     }
     if mismatches:
         cov["first_divergences"] = mismatches[:3]
+        json.dump(mismatches, open(os.path.join(ctx.outdir, "divergences.json"), "w"), indent=1)
     if refinement:
         for m in mismatches:
             ctx.violation("Refinement", m["op"], "divergence", "real Mirror diverges from spec/Mirror.tla: %s" % "; ".join(m["diff"] or []),
                           replay_obj={"world": m["world"], "steps": m["steps"]})
-    rc = ctx.finish("model_checking", extra_cov=cov)
-    if rc == 0 and (mismatches or inconcl) and not refinement:
-        for m in mismatches[:5]:
-            print("DIVERGENCE (spec vs code, no property predicate failed): %s %s: %s" % (m["op"], json.dumps(m["args"]), "; ".join(m["diff"] or [])))
-        for r in inconcl[:5]:
-            print("INCONCLUSIVE step: %s" % json.dumps(r))
-        raise vlib.Inconclusive("%d spec/code divergences, %d inconclusive steps" % (len(mismatches), len(inconcl)))
-    return rc
+    return cov, mismatches, inconcl
